@@ -5,7 +5,7 @@
 From Coq Require Import ZArith List Bool Lia Ring Field.
 From IBL.lib Require Import PyInt.
 From Coq Require Import Reals.
-From IBL.C18 Require Import Model Sums Proofs Conv Half Filter ModelR ProofsR.
+From IBL.C18 Require Import Model Sums Proofs Conv Half Filter Rfft ModelR ProofsR.
 Import ListNotations.
 Open Scope Z_scope.
 
@@ -51,6 +51,60 @@ Theorem C18_circular_convolution_theorem :
   circ_conv_at R rO radd rmul N a b k.
 Proof. exact conv_theorem. Qed.
 Print Assumptions C18_circular_convolution_theorem.
+
+(* The path convolve really takes, irfft(rfft(a) * rfft(b), n=N) (half spectra of
+   N div 2 + 1 bins; irfft drops the imaginary part of bin 0 and, N even, of bin
+   N/2, mirrors by conjugation), equals ifft(fft(a) * fft(b)) for inputs fixed by
+   the conjugation (real signals), for EVERY N >= 1 — odd padded sizes included.
+   conj is a ring morphism with conj om = 1/om; half = 1/2. *)
+Theorem C18_rfft_path_equals_full :
+  forall (R : Type) (rO rI : R) (radd rmul rsub : R -> R -> R) (ropp : R -> R)
+         (rdiv : R -> R -> R) (rinv : R -> R),
+  field_theory rO rI radd rmul rsub ropp rdiv rinv (@eq R) ->
+  forall (N : nat) (om omi invN : R),
+  (0 < N)%nat ->
+  rpow R rI rmul om N = rI ->
+  rmul om omi = rI ->
+  (forall d, (0 < d < N)%nat -> rpow R rI rmul om d <> rI) ->
+  rmul invN (rsum R rO radd N (fun _ => rI)) = rI ->
+  forall (conj : R -> R) (half : R),
+  (forall a b, conj (radd a b) = radd (conj a) (conj b)) ->
+  (forall a b, conj (rmul a b) = rmul (conj a) (conj b)) ->
+  conj rI = rI -> conj om = omi -> rmul half (radd rI rI) = rI ->
+  forall a b : list R,
+  (forall j, conj (getr R rO a j) = getr R rO a j) ->
+  (forall j, conj (getr R rO b j) = getr R rO b j) ->
+  rfft_conv R rO rI radd rmul om omi invN half conj N a b =
+  spectral_conv R rO rI radd rmul om omi invN N a b.
+Proof. exact rfft_conv_eq. Qed.
+Print Assumptions C18_rfft_path_equals_full.
+
+(* convolve(mode='full') through the rfft/irfft path, all nsx, nsw, real inputs:
+   when ns_optim(nsx+nsw) = N (with a primitive N-th root available) the result has
+   nsx + nsw entries and entry k is the direct convolution. *)
+Theorem C18_fft_conv_full_rfft :
+  forall (R : Type) (rO rI : R) (radd rmul rsub : R -> R -> R) (ropp : R -> R)
+         (rdiv : R -> R -> R) (rinv : R -> R),
+  field_theory rO rI radd rmul rsub ropp rdiv rinv (@eq R) ->
+  forall (N : nat) (om omi invN : R),
+  (0 < N)%nat ->
+  rpow R rI rmul om N = rI ->
+  rmul om omi = rI ->
+  (forall d, (0 < d < N)%nat -> rpow R rI rmul om d <> rI) ->
+  rmul invN (rsum R rO radd N (fun _ => rI)) = rI ->
+  forall (conj : R -> R) (half : R),
+  (forall a b, conj (radd a b) = radd (conj a) (conj b)) ->
+  (forall a b, conj (rmul a b) = rmul (conj a) (conj b)) ->
+  conj rI = rI -> conj om = omi -> rmul half (radd rI rI) = rI ->
+  forall x w l : list R,
+  (forall j, conj (getr R rO x j) = getr R rO x j) ->
+  (forall j, conj (getr R rO w j) = getr R rO w j) ->
+  ns_optim (Z.of_nat (length x + length w)) = Some (Z.of_nat N) ->
+  convolve_full_with R rO (rfft_conv R rO rI radd rmul om omi invN half conj) x w = Some l ->
+  length l = (length x + length w)%nat /\
+  forall k, (k < length x + length w)%nat -> nth k l rO = conv_direct_at R rO radd rmul x w k.
+Proof. exact convolve_rfft_spec. Qed.
+Print Assumptions C18_fft_conv_full_rfft.
 
 (* Index layer, all nsx, nsw (unbounded), any commutative ring: for ANY length-ns
    circular product cc that computes the circular sums (spectral_conv does, by
